@@ -376,6 +376,10 @@ func (c *tunnelChannel) allocateStream(ctx context.Context, clientStreams, serve
 			if err != nil {
 				return nil, nil, err
 			}
+			if md == nil && len(mdVals) > 0 {
+				// no outgoing metadata in the context
+				md = metadata.MD{}
+			}
 			for k, v := range mdVals {
 				md.Append(k, v)
 			}
